@@ -1,7 +1,8 @@
 #!/usr/bin/env python3
 """Book-keeping for property-breaking changes written by independent sub-agents.
 
-  seeded.py import <Cxx> <worktree> [--id ID]   verify demo both ways + pinned suite, store under /verif/seeded/<ID>/
+  seeded.py import <Cxx> <worktree> [--id ID] [--benign]   verify demo both ways + pinned suite, store under /verif/seeded/<ID>/
+                                               (--benign: a property-preserving change; the demo must hold both ways)
   seeded.py scan <ID> [--tier quick|thorough]  apply the patch to a scratch copy of /repo/src, run all 20 checks, print who reports
   seeded.py repo <ID>                          the same against /repo itself (git apply ... checkout), target property only
 
@@ -26,7 +27,7 @@ def sh(cmd, **kw):
     return subprocess.run(cmd, capture_output=True, text=True, **kw)
 
 
-def do_import(prop, wt, ident):
+def do_import(prop, wt, ident, benign=False):
     demo = os.path.join(wt, f'demo_{prop}.py')
     assert os.path.exists(demo), demo
     diff = sh(['git', '-C', wt, 'diff']).stdout
@@ -53,8 +54,13 @@ def do_import(prop, wt, ident):
     print('with change   :', with_change.returncode, (with_change.stdout.strip().splitlines() or [''])[-1][:200])
     print('without change:', without.returncode, (without.stdout.strip().splitlines() or [''])[-1][:200])
     print('suite         :', tail)
-    ok = with_change.returncode != 0 and 'VIOLATED' in with_change.stdout and without.returncode == 0 and \
-        'HOLDS' in without.stdout and re.search(r'\b181 passed\b', tail) and re.search(r'\b10 errors\b', tail)
+    if benign:
+        # a behaviour-preserving change: the demonstration holds both ways
+        ok = with_change.returncode == 0 and 'HOLDS' in with_change.stdout and without.returncode == 0 and \
+            'HOLDS' in without.stdout and re.search(r'\b181 passed\b', tail) and re.search(r'\b10 errors\b', tail)
+    else:
+        ok = with_change.returncode != 0 and 'VIOLATED' in with_change.stdout and without.returncode == 0 and \
+            'HOLDS' in without.stdout and re.search(r'\b181 passed\b', tail) and re.search(r'\b10 errors\b', tail)
     if not ok:
         print('NOT CONFIRMED - nothing stored')
         return 1
@@ -70,9 +76,11 @@ def do_import(prop, wt, ident):
         meta = json.load(open(meta_path))
     meta.update({'id': ident, 'property': prop, 'files': names,
                  'demo': f'demo_{prop}.py',
-                 'demo_with_change': (with_change.stdout.strip().splitlines() or [''])[0][:400],
+                 'demo_with_change': (with_change.stdout.strip().splitlines() or [''])[-1 if benign else 0][:400],
                  'demo_without_change': (without.stdout.strip().splitlines() or [''])[-1][:200],
                  'suite_with_change': tail})
+    if benign:
+        meta['benign'] = True
     meta.setdefault('summary', '')
     meta.setdefault('caught_by', [])
     json.dump(meta, open(meta_path, 'w'), indent=1)
@@ -114,6 +122,10 @@ def do_scan(ident, tier):
             for e in errs[:3]:
                 print('    ' + e[:300])
     print('reporting:', [p for p, rc, _r, _e in res if rc == 1], 'analysis-error:', [p for p, rc, _r, _e in res if rc == 2])
+    out = os.path.join(ROOT, 'out', 'scan')
+    os.makedirs(out, exist_ok=True)
+    json.dump({p: {'exit': rc, 'rules': sorted({r[0] for r in rules}), 'errors': [e[:200] for e in errs[:3]]}
+               for p, rc, rules, errs in res if rc != 0}, open(os.path.join(out, ident + '.json'), 'w'), indent=1)
 
 
 def do_repo(ident):
@@ -138,7 +150,7 @@ if __name__ == '__main__':
     if cmd == 'import':
         prop, wt = sys.argv[2], sys.argv[3]
         ident = sys.argv[sys.argv.index('--id') + 1] if '--id' in sys.argv else f'{prop}-a'
-        sys.exit(do_import(prop, wt, ident))
+        sys.exit(do_import(prop, wt, ident, benign='--benign' in sys.argv))
     if cmd == 'scan':
         tier = sys.argv[sys.argv.index('--tier') + 1] if '--tier' in sys.argv else 'quick'
         do_scan(sys.argv[2], tier)
